@@ -81,12 +81,12 @@ func ruleCause(c parser.Compound, again []parser.Compound) string {
 		parts["prelude"], parts["content"] = v.Prelude, v.Content
 	case parser.AtRule:
 		parts["prelude"], parts["content"] = v.Prelude, v.Content
-		if len(again) == 1 {
-			if a, ok := again[0].(parser.AtRule); ok && (a.Content == nil) != (v.Content == nil) {
-				return "rule:at-rule:empty-block-vs-no-block"
-			}
+		if len(again) >= 1 {
 			if a, ok := again[0].(parser.AtRule); ok && a.AtKeyword != v.AtKeyword && strings.HasPrefix(a.AtKeyword, v.AtKeyword) && inParens(v.Prelude) {
 				return "rule:at-rule:keyword-fuses-with-prelude"
+			}
+			if a, ok := again[0].(parser.AtRule); ok && len(again) == 1 && (a.Content == nil) != (v.Content == nil) {
+				return "rule:at-rule:empty-block-vs-no-block"
 			}
 		}
 	case parser.Declaration:
